@@ -478,7 +478,7 @@ async fn history(args: &Value) -> Value {
 
 fn main() {
     let args: Vec<String> = std::env::args().collect();
-    let multi = matches!(args.get(1).map(|s| s.as_str()), Some("admission") | Some("default_timeouts") | Some("rpc_pairing") | Some("history") | Some("oversize_confined") | Some("hostile_streams") | Some("network_names") | Some("claimed_name_grid") | Some("header_only_deadline") | Some("hostile_requests"));
+    let multi = matches!(args.get(1).map(|s| s.as_str()), Some("admission") | Some("default_timeouts") | Some("rpc_pairing") | Some("history") | Some("oversize_confined") | Some("hostile_streams") | Some("network_names") | Some("claimed_name_grid") | Some("stolen_certificate") | Some("identity_claims_in_headers") | Some("header_only_deadline") | Some("hostile_requests"));
     let rt = if multi {
         tokio::runtime::Builder::new_multi_thread().worker_threads(2).enable_all().build().unwrap()
     } else {
@@ -606,6 +606,8 @@ async fn run(args: Vec<String>) {
         "cert_corpus" => certs::cert_corpus(&a),
         "network_names" => network_names(&a).await,
         "claimed_name_grid" => rawdial::claimed_name_grid(&a).await,
+        "stolen_certificate" => rawdial::stolen_certificate(&a).await,
+        "identity_claims_in_headers" => hostile::identity_claims_in_headers(&a).await,
         "header_only_deadline" => hostile::header_only_deadline(&a).await,
         "hostile_requests" => hostile::hostile_requests(&a).await,
         "hostile_streams" => hostile::hostile_streams(&a).await,
